@@ -409,7 +409,7 @@ impl SetSpeedTrainSim {
         // This calculates the maximum power from loco based on current power, ramp rate, and dt of model.  will return 0 if this is negative.
         let pwr_pos_max =
             self.loco_con.state.pwr_out_max.min(si::Power::ZERO.max(
-                self.state.pwr_whl_out + self.loco_con.state.pwr_rate_out_max * self.state.dt,
+                self.state.pwr_whl_out + self.loco_con.state.pwr_rate_out_max * dt,
             ));
 
         // find max dynamic braking power. I am liking that we use a positive dyn braking.  This feels like we need a coordinate system where the math works out better rather than ad hoc'ing it.
